@@ -360,6 +360,7 @@ def execute(p, res):
                         break
     # E2: every call sequence of length <= 3 over the pool on this one object: each call must repeat the member's reference result
     for seq in product(range(len(pool)), repeat=3):
+        kept = []
         for i in seq:
             try:
                 r = call(pool[i].unsqueeze(0))[0]
@@ -369,6 +370,12 @@ def execute(p, res):
             if not same(r, ref[i], exact, tol):
                 v("sequence", "repeatable", f"call sequence {seq}: member {i} now -> {r.reshape(-1).tolist()[:8]}, first time -> {ref[i].reshape(-1).tolist()[:8]}", {"seq": list(seq)})
                 break
+            kept.append((i, r))
+        else:
+            # results are values: what the first calls returned still reads the same after the later calls (no work buffer handed out twice)
+            stale = [i for i, r in kept if not same(r, ref[i], exact, tol)]
+            if stale:
+                v("sequence", "repeatable", f"call sequence {seq}: the result returned for member {stale[0]} changed after later calls on the same object", {"seq": list(seq)})
         res.ev(1, nontrivial=1 if len(set(seq)) > 1 else 0, transitions=0)
     # E2 with per-call options: every sequence of length 3 over {plain call, call with the option} x 3 members on this one object; a plain call
     # answers as the first plain call did, an optioned call as the first optioned call did (fresh-object references for both)
